@@ -64,6 +64,17 @@ Section CropBezier.
     (eqb N t0 (zero N) || eqb N t1 (one N) || (ltb N t0 (one N) && ltb N (zero N) t1adj)).
   Definition crop_bezier_res (p : list (Cplx K)) (t0 t1 t1adj : K) : res (list (Cplx K)) :=
     if crop_bezier_pre t0 t1 t1adj then Ok (crop_bezier p t0 t1 t1adj) else Err EAssert.
+  (* ---- variant of the relocation (an = false: the code as pinned, t1_adj is the ORACLE's answer
+     `trimmed_seg.radialrange(pt1)[0][1]`; an = true: the repaired code
+     `t1_adj = (t1 - t0)/(1 - t0)`, no oracle) ---- *)
+  Definition crop_adj (an : bool) (t0 t1 oracle : K) : K :=
+    if an then div N (sub N t1 t0) (sub N (one N) t0) else oracle.
+  Definition crop_bezier_v (an : bool) (p : list (Cplx K)) (t0 t1 oracle : K) : list (Cplx K) :=
+    crop_bezier p t0 t1 (crop_adj an t0 t1 oracle).
+  Definition crop_bezier_pre_v (an : bool) (t0 t1 oracle : K) : bool :=
+    crop_bezier_pre t0 t1 (crop_adj an t0 t1 oracle).
+  Definition crop_bezier_res_v (an : bool) (p : list (Cplx K)) (t0 t1 oracle : K) : res (list (Cplx K)) :=
+    crop_bezier_res p t0 t1 (crop_adj an t0 t1 oracle).
   (* the point handed to the oracle: pt1 = seg.point(t1); and the piece it searches *)
   Definition crop_trimmed (p : list (Cplx K)) (t0 : K) : list (Cplx K) := snd (bez_split p t0).
 
